@@ -43,6 +43,7 @@ type Rec struct {
 	Samples  []string
 	Dist     map[string]int
 	Exec     func(line string) string
+	Sync     bool // flush both files around every op (streams whose ops start goroutines in the implementation)
 }
 
 func NewRec(dir string, exec func(string) string) (*Rec, error) {
@@ -68,8 +69,14 @@ func NewRec(dir string, exec func(string) string) (*Rec, error) {
 // correspondence).  nontrivial says whether the case counts as non-trivial
 // by the stream's rule.
 func (r *Rec) Op(kind, line string, nontrivial bool) string {
-	res := r.execGuarded(line)
+	// the op line reaches the disk before the op runs: if the implementation kills the process (a panic in a
+	// goroutine it started), ops.txt ends with the op that did it
 	fmt.Fprintf(r.ops, "%s %s\n", kind, line)
+	if r.Sync {
+		r.ops.Flush()
+		r.impl.Flush()
+	}
+	res := r.execGuarded(line)
 	fmt.Fprintf(r.impl, "%s\n", res)
 	r.N++
 	h := fnv.New64a()
@@ -128,7 +135,6 @@ func (r *Rec) execGuarded(line string) string {
 		case <-timer.C:
 		}
 		// blocked: record it and stop the run
-		fmt.Fprintf(r.ops, "S %s\n", line)
 		fmt.Fprintf(r.impl, "blocked\n")
 		r.N++
 		r.Dist["blocked"]++
